@@ -27,7 +27,7 @@ ASSUMPTIONS = ['input breadth is what the generator reaches (every table entry x
                'lazy imports performed inside third-party/stdlib code on behalf of a builtin are recorded, not judged; import statements executed by smartquery code during eval are violations']
 REAL = ['smartquery.* (evaluator, every builtin)', 'regex', 'decimal', 'copy']
 STUB = ['host (binds plain data only)', 'I/O seam (audit hook)', 'entropy source']
-REACH_PROBES = ('stored_result_reused', 'builtin_as_argument', 'attr_like_string', 'fresh_construction_eval', 'every_table_entry_applied',
+REACH_PROBES = ('host_phase_then_plain', 'parse_failure_then_use', 'stored_result_reused', 'builtin_as_argument', 'attr_like_string', 'fresh_construction_eval', 'every_table_entry_applied',
                 'audit_armed_evals', 'index_on_builtin')
 
 
@@ -35,11 +35,31 @@ def generate(seed, tier):
     S = Streams(seed)
     rc, ro = S['config'], S['ops']
     ops = []
+    host_phase = rc.random() < 0.25
+    PHASE_TEXTS = ['fetch(1)', 'g(2)', 'r = fetch("x")\nr', 'g = n => fetch(n)\ng(3)', 'map([1, 2], g)', 'h = (a, b) => fetch(a)\nh(1, 2)']
     for _ in range(rc.randint(4, 16)):
+        x = ro.random()
+        if x < 0.07:
+            # a text that does not parse, then further use of the same parser (all of it under the I/O seam)
+            from .. import badsrc
+            bk, text = badsrc.make_bad(ro, ro.choice(['x = [1, 2]\nlen(x)', 'f(1) + 2', '{"a": [1, (2)]}', 'a = 1; b = a + 1']))
+            ops.append({'op': 'src', 'src': text, 'bad': bk})
+            continue
+        if host_phase and x < 0.25:
+            ops.append({'op': 'src', 'src': ro.choice(PHASE_TEXTS)})
+            continue
         ops.append({'op': 'apply', 'pick': [ro.randrange(10 ** 6) for _ in range(3)], 'depth': ro.choice([1, 1, 2, 2, 3]),
                     'shape_seed': ro.randrange(2 ** 32), 'store': ro.choice(['name', 'name', 'item', 'none']), 'known': ro.random() < 0.5,
                     'style': gen.style(S['render']), 'entropy': ro.randrange(2 ** 32)})
-    return {'world': {'names': dict(exerciser.HOST_NAMES), 'fresh': rc.random() < 0.03}, 'ops': ops}
+    world = {'names': dict(exerciser.HOST_NAMES), 'fresh': rc.random() < 0.03}
+    if host_phase:
+        # before this history the host used the same parser with a function bound in names (fetch returns a live
+        # module object); it has since removed it: from here on only plain data (and lambdas programs defined) is bound
+        world['host_phase'] = [PHASE_TEXTS[i] for i in (3, 0, 1, 2, 5)]
+        world['cache'] = {'kind': 'dict'} if rc.random() < 0.6 else None
+    elif rc.random() < 0.2:
+        world['cache'] = {'kind': 'dict'}
+    return {'world': world, 'ops': ops}
 
 
 def _build(op, table_names, stored):
@@ -82,7 +102,21 @@ def _build(op, table_names, stored):
 def execute(case, ctx):
     from smartquery.sq_parser import SqParser
     names = {k: lang.dec_value(v) for k, v in case['world']['names'].items()}
-    parser = SqParser() if case['world'].get('fresh') else boot.fresh_parser()
+    from ..seams import make_cache
+    cache = make_cache(case['world'].get('cache'))
+    parser = SqParser(parse_cache=cache) if case['world'].get('fresh') else boot.fresh_parser(cache)
+    if case['world'].get('host_phase'):
+        import sys as _sys
+        n0 = dict(names)
+        n0['fetch'] = lambda *a: _sys
+        for text in case['world']['host_phase']:
+            real_eval(parser, text, n0, budget=2000)
+        # the host takes its function and everything non-plain away again; lambdas the programs defined stay
+        for k, v in n0.items():
+            if k != 'fetch' and canon.type_walk(v, hooks.make_allowed_callable(None)) is None:
+                names[k] = v
+        ctx.fault('host_function_removed')
+        ctx.probe('host_phase_then_plain')
     if case['world'].get('fresh'):
         ctx.probe('fresh_construction_eval')
     table = monitors.M.functions.FUNCTIONS
@@ -93,8 +127,15 @@ def execute(case, ctx):
     applied = set()
     for step, op in enumerate(case['ops']):
         ctx.step = step
-        prog, used, tgt = _build(op, table_names, stored)
-        src = lang.render(prog, op.get('style', 0))
+        if op['op'] == 'src':
+            prog, used, tgt = ['src'], ['src'], 'V9'
+            src = op['src']
+            if op.get('bad'):
+                ctx.fault('bad_source')
+                ctx.probe('parse_failure_then_use')
+        else:
+            prog, used, tgt = _build(op, table_names, stored)
+            src = lang.render(prog, op.get('style', 0))
         ENTROPY.script(op.get('entropy', 0))
         rec = monitors.Rec()
         rec.value_hooks = (vhook,)
@@ -127,7 +168,7 @@ def execute(case, ctx):
         if any(s_ in src for s_ in stored):
             ctx.probe('stored_result_reused')
             ctx.nontrivial = True
-        if op['store'] == 'name' and tgt in names and tgt not in stored:
+        if op.get('store') == 'name' and tgt in names and tgt not in stored:
             stored.append(tgt)
         if any(a in src for a in exerciser.ATTR_STRINGS[:4]):
             ctx.probe('attr_like_string')
